@@ -10,21 +10,22 @@ import LitexModel.DriverLib
   Numeric port encodings of the C09 bridge models for the line protocol (all numbers decimal).
 
   AXI-Lite master signals (9): aw.valid aw.addr w.valid w.data w.strb b.ready ar.valid ar.addr r.ready
+                               (as bridge outputs followed by aw.prot ar.prot = 0 0)
   AXI-Lite slave signals  (8): aw.ready w.ready b.valid b.resp ar.ready r.valid r.resp r.data
-  Wishbone master signals (6): cyc stb we adr sel dat_w
+  Wishbone master signals (6): cyc stb we adr sel dat_w          (as bridge outputs followed by cti bte = 0 0)
   Wishbone slave signals  (3): ack dat_r err
 
   `axl2wb aw nb shift base` : inputs = AXI-Lite master ++ Wishbone slave, outputs = AXI-Lite slave ++ Wishbone master
   `axl2csr shift adrBits nb` : inputs = AXI-Lite master ++ [csr.dat_r], outputs = AXI-Lite slave ++ [csr.adr csr.we csr.re csr.dat_w]
   `axlsram shift adrBits nb readOnly w0 w1 …` (initial words) : inputs = AXI-Lite master, outputs = AXI-Lite slave
   `axldown ratio nbTo abits` : inputs = AXI-Lite master (wide) ++ AXI-Lite slave (narrow), outputs = AXI-Lite slave (wide) ++ AXI-Lite master (narrow)
-  `axlup ratio nbFrom` : inputs = AXI-Lite master (narrow) ++ AXI-Lite slave (wide), outputs = AXI-Lite slave (narrow) ++ AXI-Lite master (wide)
+  `axlup ratio nbFrom abits` : inputs = AXI-Lite master (narrow) ++ AXI-Lite slave (wide), outputs = AXI-Lite slave (narrow) ++ AXI-Lite master (wide)
   AXI master signals (18): aw.valid aw.addr aw.burst aw.len aw.size aw.id w.valid w.data w.strb w.last b.ready
                            ar.valid ar.addr ar.burst ar.len ar.size ar.id r.ready
   AXI slave signals  (11): aw.ready w.ready b.valid b.resp b.id ar.ready r.valid r.resp r.data r.id r.last
   `axi2axl aw` : inputs = AXI master ++ AXI-Lite slave, outputs = AXI slave ++ AXI-Lite master
   `axl2axi size burst prot wid rid` : inputs = AXI-Lite master ++ AXI slave,
-                                      outputs = AXI-Lite slave ++ AXI master ++ [aw.prot aw.cache ar.prot ar.cache]
+                                      outputs = AXI-Lite slave ++ AXI master ++ [aw.prot aw.cache ar.prot ar.cache aw.lock aw.qos ar.lock ar.qos]
   `ahb2wb lg shift` : inputs = [haddr hsize htrans hwdata hwrite hsel] ++ Wishbone slave,
                       outputs = [hrdata hreadyout hresp] ++ Wishbone master
   `axi2wb aw nb shift base` (AXI2Wishbone = AXI2AXILite + AXILite2Wishbone on a shared AXI-Lite bus):
@@ -117,7 +118,7 @@ def numAxl2Axi (c : L2XCfg) : NumMachine Unit where
   init := ()
   step _ ins :=
     match AxlM.ofNums (ins.take 9), AxiS.ofNums (ins.drop 9) with
-    | some m, some r => some ((), (Axl2Axi.toMaster r).toNums ++ (Axl2Axi.toSlave c m).toNums ++ [c.prot, 3, c.prot, 3])
+    | some m, some r => some ((), (Axl2Axi.toMaster r).toNums ++ (Axl2Axi.toSlave c m).toNums ++ [c.prot, 3, c.prot, 3, 0, 0, 0, 0])
     | _, _ => none
   key _ := "()"
 
@@ -169,7 +170,7 @@ def openMachine (args : List String) (hin hout : IO.FS.Stream) : Option (IO Bool
       | "axlsram", shift :: ab :: nb :: ro :: mem =>
         some (serve (numAxlSram { shift := shift, adrBits := ab, nb := nb } (n2b ro) mem) hin hout)
       | "axldown", [ratio, nbTo, abits] => some (serve (numDown { ratio := ratio, nbTo := nbTo, abits := abits }) hin hout)
-      | "axlup", [ratio, nbFrom] => some (serve (numUp { ratio := ratio, nbFrom := nbFrom }) hin hout)
+      | "axlup", [ratio, nbFrom, abits] => some (serve (numUp { ratio := ratio, nbFrom := nbFrom, abits := abits }) hin hout)
       | "axi2axl", [aw] => some (serve (numAxi2Axl aw) hin hout)
       | "axl2axi", [size, burst, prot, wid, rid] =>
         some (serve (numAxl2Axi { size := size, burst := burst, prot := prot, wid := wid, rid := rid }) hin hout)
